@@ -30,6 +30,8 @@ multiplier thresholds and across targets.
 -/
 import MpcVerif.Proofs.Equiv
 import MpcVerif.Proofs.Levels
+import MpcVerif.Proofs.PassCP
+import MpcVerif.Proofs.PassPrune
 
 namespace Mpc
 
@@ -188,6 +190,31 @@ theorem C09_gmw_schedule (c : Circuit) (hssa : SSA c.numWires c.gates c.inputDef
   rw [gmwLe_iff]
   simp only [gKey, bump, if_true] at this ⊢
   by_cases h1 : h.1.op = .and <;> by_cases h2 : a.1.op = .and <;> simp [h1, h2] at this ⊢ <;> omega
+
+/-! ### The optimisation passes themselves (model: `Model/Passes.lean`)
+
+`Graph` is the builder-level gate/wire graph of `circuits.Compiler` between
+the passes; `Graph.compute` is its input-to-output function (values of
+`cc.OutputWires`).  The pass models are tied to the real passes on every run:
+the Lean pass applied to the dumped pre-pass graph must reproduce the dumped
+post-pass graph gate for gate and wire for wire (values, fan-out counters,
+output lists), see `pass` ops of the driver. -/
+
+/-- `Compiler.ConstPropagate` (all rules: SetValue for decided gates,
+ShortCircuit aliasing for XOR/OR with Zero and AND with One, replacement of
+constant inputs by the zero/one wire) preserves the function of every
+well-formed graph, for every input; the result is well-formed again. -/
+theorem C09_constPropagate_preserves (G G' : Graph) (h : G.WFcp) (hr : G.constPropagate = some G') :
+    G'.GWF ∧ ∀ x, G'.compute x = G.compute x :=
+  Graph.constPropagate_preserves G G' h hr
+
+/-- `Compiler.Prune` (dead-gate removal driven by the fan-out counters,
+cascading from the last gate to the first) preserves the function of every
+well-formed graph whose counters are not below the real fan-out and whose
+output wires are flagged; the invariant holds again afterwards. -/
+theorem C09_prune_preserves (G G' : Graph) (h : G.PInv) (hr : G.prune = some G') :
+    G'.PInv ∧ ∀ x, G'.compute x = G.compute x :=
+  Graph.prune_preserves G G' h hr
 
 /-! ### The target axis of the full statement is false on the pinned tree -/
 
